@@ -257,6 +257,87 @@ Theorem C11_connect_classify :
 Proof. exact listed_connect_faults_classified. Qed.
 Print Assumptions C11_connect_classify.
 
+(* ---- connect faults: no descriptor leak, as a theorem of C11 itself ---------------------------- *)
+(* [connect_attempt e] is what Connector::connect does with the ONE socket it creates when ::connect
+   leaves errno e (0 = success), read off regenerated facts: per switch group how often its body
+   calls connecting(sockfd) / retry(sockfd) / sockets::close(sockfd), that retry() closes its
+   argument once and unconditionally, that connecting() closes nothing and hands the descriptor to
+   a new Channel with write interest.  For EVERY errno the socket is closed exactly once and not
+   watched, or not closed and watched: never leaked, never closed twice.  (What happens to a
+   watched socket afterwards - handleWrite / handleError, the back-off - is C12's.) *)
+Theorem C11_connect_fault_no_leak : forall e,
+  at_created (connect_attempt e) = 1%nat /\
+  ((at_closes (connect_attempt e) = 1%nat /\ at_watched (connect_attempt e) = false) \/
+   (at_closes (connect_attempt e) = 0%nat /\ at_watched (connect_attempt e) = true)).
+Proof. exact connect_fault_no_leak. Qed.
+Print Assumptions C11_connect_fault_no_leak.
+
+Theorem C11_connect_attempt_def : forall e,
+  connect_attempt e =
+  let '(cg, rt, cl) := connect_group_of e connect_groups in
+  mkAttempt connect_creates_sockets
+            (cl + rt * connector_retry_closes + cg * connector_connecting_closes)
+            ((0 <? cg)%nat && connector_connecting_watches)
+            rt.
+Proof. exact connect_attempt_unfold. Qed.
+Print Assumptions C11_connect_attempt_def.
+
+(* the listed transient classes: ECONNREFUSED / ENETUNREACH close the socket and arm one retry;
+   EINPROGRESS (and EINTR, and success) is watched for writability; sockets::connect is the bare
+   system call *)
+Theorem C11_connect_listed_faults :
+  connect_attempt errno_ECONNREFUSED = mkAttempt 1 1 false 1 /\
+  connect_attempt errno_ENETUNREACH = mkAttempt 1 1 false 1 /\
+  connect_attempt errno_EINPROGRESS = mkAttempt 1 0 true 0 /\
+  connect_attempt errno_EINTR = mkAttempt 1 0 true 0 /\
+  connect_attempt 0 = mkAttempt 1 0 true 0 /\
+  sockets_connect_is_plain = true /\ connector_retry_all_closes = 1%nat.
+Proof. exact connect_listed_faults. Qed.
+Print Assumptions C11_connect_listed_faults.
+
+(* ---- Acceptor: the current source, statement by statement ------------------------------------- *)
+(* `connfd >= 0`, `errno == EMFILE`, `newConnectionCallback_`; no loop in handleRead and one accept
+   outside the valve (one connection per dispatch, as C11_Model.handleRead); listen() enables reading
+   after ::listen; the destructor disables, removes, closes the spare descriptor *)
+Theorem C11_acceptor_guards :
+  (forall fd, acceptor_ok_test (Z.of_nat fd) = true) /\ acceptor_ok_test (-1) = false /\
+  (forall e, acceptor_emfile_test e = (e =? errno_EMFILE)) /\
+  (forall b, acceptor_has_cb_test b = b) /\
+  acceptor_handleRead_loops = 0%nat /\ acceptor_accepts_outside_valve = 1%nat /\
+  acceptor_listen_then_enable = true /\ acceptor_dtor_closes_idle = true.
+Proof. exact acceptor_guards. Qed.
+Print Assumptions C11_acceptor_guards.
+
+(* the EMFILE branch as it stands (`acceptor_valve_protocol`: 1 = ::close(idleFd_), 2 = idleFd_ =
+   ::accept(listener), 3 = idleFd_ = ::open("/dev/null")) run statement by statement
+   ([valve_step]: overwriting a descriptor number that is still open counts as a leak; closing the
+   spare descriptor while it holds an accepted connection closes that connection): the spare
+   descriptor is valid again, nothing leaked, and the listener state is the one handleRead computes.
+   Dropping or reordering a statement of the branch breaks this lemma. *)
+Theorem C11_valve_protocol_is_model : forall a,
+  dead a = false -> idle_ok a = true ->
+  let v := run_valve (mkValve IdleNull (pendq a) 0 0) acceptor_valve_protocol in
+  v_idle v = IdleNull /\ v_leaked v = 0%nat /\
+  fst (handleRead a (AErr errno_EMFILE)) =
+    mkAcc (v_pend v) true (handed a) (valved a + v_closed v) (open_fds a) false.
+Proof. exact valve_protocol_is_model. Qed.
+Print Assumptions C11_valve_protocol_is_model.
+
+Theorem C11_valve_step_def : forall v code,
+  valve_step v code =
+  let lost := match v_idle v with IdleClosed => 0%nat | _ => 1%nat end in
+  if code =? 1 then
+    mkValve IdleClosed (v_pend v) (match v_idle v with IdleConn => S (v_closed v) | _ => v_closed v end) (v_leaked v)
+  else if code =? 2 then
+    match v_pend v with
+    | O => mkValve IdleClosed O (v_closed v) (v_leaked v + lost)
+    | S n => mkValve IdleConn n (v_closed v) (v_leaked v + lost)
+    end
+  else if code =? 3 then mkValve IdleNull (v_pend v) (v_closed v) (v_leaked v + lost)
+  else v.
+Proof. exact valve_step_unfold. Qed.
+Print Assumptions C11_valve_step_def.
+
 (* ========================================================================================== *)
 (* Non-vacuity                                                                                  *)
 (* ========================================================================================== *)
